@@ -77,6 +77,7 @@ func (r *sseResponder) respond(
 		// A result that cannot be encoded is an internal error of this request, not an empty answer.
 		respBytes, err = r.marshalResponse(newEncodingFailureResponse(resp, err))
 		if err != nil {
+			http.Error(w, "Internal server error", http.StatusInternalServerError)
 			return err
 		}
 	}
